@@ -6,6 +6,7 @@ import (
 	stdErrors "errors"
 	"fmt"
 	"math"
+	"sort"
 	"strconv"
 
 	"github.com/smarthome-go/homescript/v3/homescript/errors"
@@ -26,6 +27,15 @@ func (f jsonFloat) MarshalJSON() ([]byte, error) {
 	return strconv.AppendFloat(nil, n, 'f', prec, 64), nil
 }
 
+func sortedFieldKeys(fields map[string]*Value) []string {
+	keys := make([]string, 0, len(fields))
+	for key := range fields {
+		keys = append(keys, key)
+	}
+	sort.Strings(keys)
+	return keys
+}
+
 func marshalValue(self Value, span errors.Span, isInner bool, executor Executor) (interface{}, bool, *Interrupt) {
 	switch self := self.(type) {
 	case ValueString:
@@ -39,7 +49,9 @@ func marshalValue(self Value, span errors.Span, isInner bool, executor Executor)
 	case ValueAnyObject:
 		output := make(map[string]interface{}, 0)
 
-		for key, value := range self.FieldsInternal {
+		// in the order of the keys: which field a failure names must not depend on the iteration order of the map
+		for _, key := range sortedFieldKeys(self.FieldsInternal) {
+			value := self.FieldsInternal[key]
 			if value == nil {
 				return nil, false, nil
 			}
@@ -56,7 +68,9 @@ func marshalValue(self Value, span errors.Span, isInner bool, executor Executor)
 	case ValueObject:
 		output := make(map[string]interface{}, 0)
 
-		for key, value := range self.FieldsInternal {
+		// in the order of the keys: which field a failure names must not depend on the iteration order of the map
+		for _, key := range sortedFieldKeys(self.FieldsInternal) {
+			value := self.FieldsInternal[key]
 			if value == nil {
 				return nil, false, nil
 			}
